@@ -7,7 +7,7 @@
 EXTENDS Chars
 
 (* `.` stands for any character except a line feed (the textbook default of regular expressions) *)
-ElMatches(el, c) == (el.ch = "ANY" /\ c # "\n") \/ el.ch = c
+ElMatches(el, c) == (el.ch = "ANY" /\ c # "\n") \/ el.ch = "ANYLF" \/ el.ch = c          \* ANYLF: `.` under the `s` flag
 
 RECURSIVE MatchHere(_, _)
 MatchHere(els, s) ==        \* set of k such that els matches the prefix of length k of s
